@@ -43,7 +43,8 @@ build_alpha(int thorough) {
   for (int i = 0; i < 4; i++)
     ALPHA[nalpha++] = (struct op){K_REPLAY, i};
   /* forge(p): 0 -> PIV 0, 1 -> PIV 1, 2 -> highest PIV so far, 3 -> highest+1, 4 -> highest+70, 5 -> forged response */
-  for (int i = 0; i < 6; i++)
+  /* 6 -> highest+70 with a ciphertext shorter than the authentication tag (4 bytes) */
+  for (int i = 0; i < 7; i++)
     ALPHA[nalpha++] = (struct op){K_FORGE, i}; /* 5: a forged RESPONSE (no Partial IV) to a request this node sent on the same context */
 }
 static const char *
@@ -421,6 +422,8 @@ run_history(const struct rcfg *c, const struct op *ops, int n, int *acc, struct 
       }
       p = o.arg == 0 ? 0 : o.arg == 1 ? 1 : o.arg == 2 ? H->maxpiv : o.arg == 3 ? H->maxpiv + 1 : H->maxpiv + 70;
       l = make_request(p, NULL, 0, 1, b, sizeof b, NULL);
+      if (o.arg == 6 && l > 20)
+        l -= 7; /* GET /t: 3 bytes of plaintext + 8 bytes of tag; 4 bytes are left */
       forged = 1;
       break;
     }
